@@ -1,6 +1,8 @@
 package rgsw
 
 import (
+	"math"
+
 	"github.com/tuneinsight/lattigo/v6/core/rlwe"
 	"github.com/tuneinsight/lattigo/v6/ring"
 	"github.com/tuneinsight/lattigo/v6/ring/ringqp"
@@ -54,8 +56,10 @@ func (eval Evaluator) ExternalProduct(op0 *rlwe.Ciphertext, op1 *Ciphertext, opO
 
 		params := eval.GetRLWEParameters()
 
-		// If log(Q) * (Q-1)**2 < 2^{64}-1
-		if ringQ := params.RingQ(); levelQ == 0 && levelP == -1 && (ringQ.SubRings[0].Modulus>>29) == 0 {
+		// The 32-bit path accumulates, without reduction, one product per digit and per RGSW component:
+		// 2 * #digits values smaller than q * 6q (operand < q times a lazy NTT output <= 6q-2) must fit in 64 bits.
+		if ringQ := params.RingQ(); levelQ == 0 && levelP == -1 && (ringQ.SubRings[0].Modulus>>29) == 0 &&
+			ringQ.SubRings[0].Modulus*ringQ.SubRings[0].Modulus <= math.MaxUint64/uint64(12*len(op1.Value[0].Value[0])) {
 			eval.externalProduct32Bit(op0, op1, c0QP.Q, c1QP.Q)
 			ringQ.AtLevel(0).IMForm(c0QP.Q, opOut.Value[0])
 			ringQ.AtLevel(0).IMForm(c1QP.Q, opOut.Value[1])
